@@ -32,6 +32,8 @@ func Run(cfg hx.Config) error {
 	runRuby(r, rnd.Fork(), cfg)
 	runJava(r, rnd.Fork(), cfg)
 	runGobin(r, rnd.Fork(), cfg)
+	runJar(r, rnd.Fork(), cfg)
+	runJarOdd(r, rnd.Fork(), cfg)
 	if err := runOsOwned(r, rnd.Fork(), cfg); err != nil {
 		return err
 	}
